@@ -40,7 +40,7 @@ func c15Content(file string, fmv, version int) string {
 	case "layouts/base.vuego", "pages/post.vuego", "layouts/post.vuego":
 		return fmt.Sprintf("<section data-file=\"%s\" data-l=\"v%d\"><div v-html=\"content\"></div></section>", file, version)
 	default:
-		return fmt.Sprintf("---\nlv: L%d\n---\n<main data-l=\"v%d\" :data-f=\"lv\"><div v-html=\"content\"></div></main>", fmv, version)
+		return fmt.Sprintf("---\nlv: L%d\n---\n<main data-l=\"v%d\" :data-f=\"lv\"><template v-html=\"content\"></template></main>", fmv, version)
 	}
 }
 
